@@ -10,6 +10,8 @@ pub enum V<'a> {
     /// rejected with this error number
     Rej(i16),
     Inc,
+    /// the parser panicked (a matter for C05; C12 only counts these inputs)
+    Panic,
 }
 
 impl V<'_> {
@@ -18,6 +20,7 @@ impl V<'_> {
             V::Acc(..) => "Acc",
             V::Rej(_) => "Rej",
             V::Inc => "Inc",
+            V::Panic => "Panic",
         }
     }
     pub fn show(&self) -> String {
@@ -33,16 +36,18 @@ impl V<'_> {
             ),
             V::Rej(n) => format!("Rej({n})"),
             V::Inc => "Incomplete".into(),
+            V::Panic => "panic".into(),
         }
     }
 }
 
 #[inline]
 pub fn verdict<'a>(root: &'static Node, start: &'static Node, x: &'a [u8]) -> V<'a> {
-    match parser::parse(root, start, x) {
-        Ok((rest, call)) => V::Acc(x.len() - rest.len(), call),
-        Err(ParseError::Incomplete) => V::Inc,
-        Err(e) => {
+    match std::panic::catch_unwind(std::panic::AssertUnwindSafe(|| parser::parse(root, start, x))) {
+        Err(_) => V::Panic,
+        Ok(Ok((rest, call))) => V::Acc(x.len() - rest.len(), call),
+        Ok(Err(ParseError::Incomplete)) => V::Inc,
+        Ok(Err(e)) => {
             let e: microscpi::Error = e.into();
             V::Rej(e.number())
         }
@@ -92,6 +97,7 @@ pub fn digest(v: &V) -> u64 {
     };
     match v {
         V::Inc => mix(1),
+        V::Panic => mix(9),
         V::Rej(n) => {
             mix(2);
             mix(*n as u16 as u64)
